@@ -423,6 +423,9 @@ class Engine(object):
         return smt.som(a.off + a.stride * k)
 
     def load(self, st: State, a: VArr, k, line=0, check=True, heap=None):
+        if check and self.spec_depth == 0 and st.hmeta[a.obj].get("zerod_if") is not None:
+            self.oblig(st, f"index@{line}", z3.Not(st.hmeta[a.obj]["zerod_if"]), line,
+                       label="a 0-d array (squeezed single element) cannot be indexed (IndexError)")
         if check and self.spec_depth == 0:
             self.oblig(st, f"index@{line}", z3.And(0 <= k, k < a.n), line)
             st.assume(z3.And(0 <= k, k < a.n))
@@ -570,6 +573,15 @@ class Engine(object):
         kind = "real" if isinstance(r, VReal) else ("int" if isinstance(r, VInt) else "bool")
         raw = r.t
         obj = self.new_obj(st, kind, None, "tmp", contents=z3.Lambda([j], raw))
+        # numpy: an operation on 0-d operands only (scalars count as 0-d) is 0-d again
+        def z0(x):
+            if isinstance(x, VArr):
+                f = st.hmeta[x.obj].get("zerod_if")
+                return f if f is not None else z3.BoolVal(False)
+            return z3.BoolVal(True)
+        zr = smt.simp(z3.And(z0(a), z0(b)))
+        if not z3.is_false(zr):
+            st.hmeta[obj]["zerod_if"] = zr
         if isinstance(a, VArr) and isinstance(b, VArr):
             fa, fb = st.hmeta[a.obj].get("fftlen"), st.hmeta[b.obj].get("fftlen")
             if fa is not None and fb is not None and self.entails(st, fa == fb):
